@@ -304,6 +304,7 @@ func checkAssemblerOrder(c *core.Ctx, pkg, rp string) {
 	}
 
 	if pkg == "reassembly" {
+		containerSiblings(c, c.Rule(rp+".15", "T", "the two byteContainer implementations agree on consuming a skip from the receiver's own window"))
 		checkCoherentTriples(c, c.Rule(rp+".14", "T", "a connection is returned together with its own two halves"))
 		checkOverlapAlways(c, c.Rule(rp+".13", "T", "the packet being handled is compared with the out-of-order queue on every path (only an empty queue may skip it)"), pkg)
 		r10 := c.Rule(rp+".10", "T", "a list built together with the byte count of its elements is never emptied without zeroing the count")
@@ -1807,5 +1808,89 @@ func checkCoherentTriples(c *core.Ctx, r *core.Rule) {
 	}
 	if n < 4 {
 		r.Missing("reassembly/connection triples", fmt.Sprintf("only %d returns found", n))
+	}
+}
+
+// containerSiblings (R9.15): page and livePacket both implement the
+// assembler's byteContainer; cleanSG treats them alike and works out how much
+// of the pending `skip` a container consumed from the change of its length().
+// For the methods that receive such a skip, the implementations must agree on
+// the update of the receiver's own window: fields that exist in both receiver
+// types (bytes, seq) and are stored by one implementation of a method must be
+// stored by the other implementation of that method.
+func containerSiblings(c *core.Ctx, r *core.Rule) {
+	p := c.P
+	iface := p.Iface("reassembly", "byteContainer")
+	if iface == nil {
+		r.Missing("reassembly.byteContainer", "interface not found")
+		return
+	}
+	n := 0
+	for i := 0; i < iface.NumMethods(); i++ {
+		m := iface.Method(i)
+		impls := p.Implementations(iface, m.Name(), "reassembly")
+		if len(impls) < 2 {
+			continue
+		}
+		// only methods that take an integer amount (skip) can consume part of the window
+		takesInt := false
+		sig := m.Type().(*types.Signature)
+		for k := 0; k < sig.Params().Len(); k++ {
+			if bt, ok := sig.Params().At(k).Type().Underlying().(*types.Basic); ok && bt.Info()&types.IsInteger != 0 {
+				takesInt = true
+			}
+		}
+		if !takesInt {
+			continue
+		}
+		written := map[*ssa.Function]map[string]bool{}
+		fieldsOf := map[*ssa.Function]map[string]bool{}
+		for _, fn := range impls {
+			w := map[string]bool{}
+			core.Instrs(fn, func(ins ssa.Instruction) {
+				if st, ok := ins.(*ssa.Store); ok {
+					if pth, ok := core.RecvFieldAddrPath(fn, st.Addr); ok {
+						w[pth] = true
+					}
+				}
+			})
+			written[fn] = w
+			fs := map[string]bool{}
+			if pt, ok := fn.Params[0].Type().Underlying().(*types.Pointer); ok {
+				if st, ok := pt.Elem().Underlying().(*types.Struct); ok {
+					for k := 0; k < st.NumFields(); k++ {
+						fs[st.Field(k).Name()] = true
+					}
+				}
+			}
+			fieldsOf[fn] = fs
+		}
+		for a := 0; a < len(impls); a++ {
+			for b := 0; b < len(impls); b++ {
+				if a == b {
+					continue
+				}
+				fa, fb := impls[a], impls[b]
+				for f := range written[fa] {
+					if f == "prev" || f == "next" {
+						continue // list links exist only while queued
+					}
+					if !fieldsOf[fb][f] {
+						continue
+					}
+					n++
+					key := fmt.Sprintf("reassembly.byteContainer.%s/%s-updated-by:%s", m.Name(), f, core.FnKey(fb))
+					if written[fb][f] {
+						r.OK(key, p.Pos(fb.Pos()), "both implementations store "+f)
+					} else {
+						r.Violate(key, p.Pos(fb.Pos()), fmt.Sprintf("%s stores the receiver's %s (it consumes the amount it is given from its own window) but %s does not: the caller treats both kinds of container alike and derives what was consumed from the change of length(), so after a container of this kind the unconsumed amount is applied again to the next container — bytes the stream asked to keep are cut off the following page and the kept data is no longer contiguous (it is dropped instead of being presented again)", core.FnKey(fa), f, core.FnKey(fb)), nil)
+					}
+				}
+			}
+		}
+	}
+	c.Counts["container_sibling_fields"] = n
+	if n < 1 {
+		r.Missing("reassembly/byteContainer sibling updates", "no common stored field found")
 	}
 }
